@@ -26,6 +26,8 @@ Clauses of the property and where they are:
 * Euclidean / algebra: `+`; group: `Exp(δ[:m]) · X`              — `update_euclid`, `update_alg`, `update_SO3`, `update_SE3`,
                                                                   `update_RxSO3`, `update_Sim3`, `update_slot_ignored`
 * each LM trial = minimiser of the damped weighted least squares — `lm_trial_minimises`
+* hardening pass: item-wise = batched (`update_item_local`, `update_entry_local`, `normal_matrix_separable`,
+  `lm_Ak_separable`), trial histories compose (`lm_Ak_append`), calls are independent (`calls_independent`)
 -/
 namespace PP.GNStep
 open Finset Matrix
@@ -566,5 +568,71 @@ theorem update_slot_ignored (eps : ℝ) (p : Param ℝ) (g : Grp) (h : p.kind = 
   apply hd
   rw [Nat.add_comm, Nat.add_mul_mod_self_right, Nat.mod_eq_of_lt (by omega)]
   exact ha
+
+/-! ## hardening pass: item-wise = batched, independence of calls and of trial histories -/
+
+/-- **The update acts item by item.**  Item `t` of a group parameter after `update_parameter` depends only on item `t` of
+the parameter and on the first `adim` entries of item `t` of the step — whatever the other items of the batch are
+(tiny / ordinary / large steps mixed in one batch cannot influence each other). -/
+theorem update_item_local (eps : ℝ) (p p' : Param ℝ) (g : Grp) (h : p.kind = .grp g) (h' : p'.kind = .grp g)
+    (d d' : Nat → ℝ) (t : Nat)
+    (hX : ∀ a, a < g.gdim → p.data (t * g.gdim + a) = p'.data (t * g.gdim + a))
+    (hd : ∀ a, a < g.adim → d (t * g.gdim + a) = d' (t * g.gdim + a)) (a : Nat) (ha : a < g.gdim) :
+    (addParam eps p d).data (t * g.gdim + a) = (addParam eps p' d').data (t * g.gdim + a) := by
+  obtain ⟨e1, e2⟩ := div_mod_item g.gdim t a ha
+  simp only [addParam, h, h', e1, e2]
+  rw [retrItem_congr2 eps g _ (fun a => p'.data (t * g.gdim + a)) _ (fun a => d' (t * g.gdim + a)) hX hd]
+
+/-- Euclidean / algebra parameters: entry by entry -/
+theorem update_entry_local (eps : ℝ) (p p' : Param ℝ) (hk : p.kind = p'.kind) (hg : ∀ g, p.kind ≠ .grp g)
+    (d d' : Nat → ℝ) (i : Nat) (hx : p.data i = p'.data i) (hd : d i = d' i) :
+    (addParam eps p d).data i = (addParam eps p' d').data i := by
+  cases hkind : p.kind with
+  | euclid => rw [update_euclid eps p d hkind, update_euclid eps p' d' (hk ▸ hkind), hx, hd]
+  | alg g => rw [update_alg eps p d g hkind, update_alg eps p' d' g (hk ▸ hkind), hx, hd]
+  | grp g => exact absurd hkind (hg g)
+
+/-- **A batch of independent items gives a block-diagonal normal matrix**: if every residual row depends on the
+parameters of its own item only (`J[r, c] = 0` unless `ritem r = citem c`) and the weight couples rows of one item only,
+then `(JᵀWJ)[i, j] = 0` for columns of different items … -/
+theorem normal_matrix_separable (m : Nat) (W J : Nat → Nat → ℝ) (ritem citem : Nat → Nat)
+    (hJ : ∀ r c, ritem r ≠ citem c → J r c = 0) (hW : ∀ r s, ritem r ≠ ritem s → W r s = 0)
+    (i j : Nat) (hij : citem i ≠ citem j) :
+    lmNormal m (lmJT m (some W) J) J i j = 0 ∧
+    (∀ J' : Nat → Nat → ℝ, (∀ r c, ritem r ≠ citem c → J' r c = 0) → lmNormal m (lmJT m none J') J' i j = 0) :=
+  ⟨normal_separable m W J ritem citem hJ hW i j hij,
+   fun J' hJ' => normal_separable_unweighted m J' ritem citem hJ' i j hij⟩
+
+/-- … and it stays block diagonal through the clamp and through every damping history: in every LM trial the system of
+a separable batch is the collection of the items' own systems (batched solve = item-wise solves). -/
+theorem lm_Ak_separable (m : Nat) (lo hi : ℝ) (W J : Nat → Nat → ℝ) (ritem citem : Nat → Nat)
+    (hJ : ∀ r c, ritem r ≠ citem c → J r c = 0) (hW : ∀ r s, ritem r ≠ ritem s → W r s = 0) (lams : List ℝ)
+    (n i : Nat) (δ : Nat → ℝ) :
+    ∑ j ∈ range n, lmAk (lmA0 m lo hi (some W) J) lams i j * δ j
+      = ∑ j ∈ range n, if citem j = citem i then lmAk (lmA0 m lo hi (some W) J) lams i j * δ j else 0 := by
+  apply sum_congr rfl
+  intro j _
+  by_cases hc : citem j = citem i
+  · simp [hc]
+  · have hne : i ≠ j := fun e => hc (by rw [e])
+    rw [if_neg hc, lm_Ak_offdiag m lo hi (some W) J lams i j hne,
+      normal_separable m W J ritem citem hJ hW i j (fun e => hc e.symm), zero_mul]
+
+/-- **Trial histories compose**: the matrix after the dampings `lams₁ ++ lams₂` is the matrix after `lams₁` damped by
+`lams₂` — a trial depends on the earlier trials of the same call only through the matrix they left behind. -/
+theorem lm_Ak_append (A0 : Nat → Nat → ℝ) (lams₁ lams₂ : List ℝ) :
+    lmAk A0 (lams₁ ++ lams₂) = lmAk (lmAk A0 lams₁) lams₂ := by
+  simp [lmAk, List.foldl_append]
+
+/-- **Calls are independent.**  The model of a call is a function of that call's own data (residuals, Jacobian, weights,
+clamps, damping history): for any sequence of calls on one optimizer, the system handed to the solver in call `i` is the
+one a fresh optimizer would build from call `i`'s data alone.  (The model has no cross-call state; that the *code* has
+none is what the correspondence check over call histories with every per-call argument varied establishes.) -/
+theorem calls_independent (calls : List (Nat × ℝ × ℝ × List (Res ℝ → Res ℝ) × List (Res ℝ) × List (List Nat)
+      × Option (List (List Nat × (Nat → ℝ))) × List ℝ)) (i : Nat) (hi : i < calls.length) :
+    (calls.map fun c => lmSystem c.1 c.2.1 c.2.2.1 c.2.2.2.1 c.2.2.2.2.1 c.2.2.2.2.2.1 c.2.2.2.2.2.2.1 c.2.2.2.2.2.2.2)[i]?
+      = some (lmSystem calls[i].1 calls[i].2.1 calls[i].2.2.1 calls[i].2.2.2.1 calls[i].2.2.2.2.1 calls[i].2.2.2.2.2.1
+                calls[i].2.2.2.2.2.2.1 calls[i].2.2.2.2.2.2.2) := by
+  simp [List.getElem?_map, List.getElem?_eq_getElem hi]
 
 end PP.GNStep
